@@ -28,6 +28,7 @@ import AutomataVerif.Proofs.EpsOpsA
 import AutomataVerif.Proofs.EpsOpsB
 import AutomataVerif.Proofs.NFAOpsUnary
 import AutomataVerif.Proofs.NFAOpsReverse
+import AutomataVerif.Proofs.NFAOpsBinary
 import AutomataVerif.Proofs.NFAOpsShuffle
 import AutomataVerif.Props.C01
 
@@ -112,6 +113,52 @@ theorem C08_kleene_star (nat : Nat → σ) (hnat : Function.Injective nat) (A : 
       have hne : q ≠ addNewState nat A.states := fun e => hfresh (e ▸ hq)
       simp [nfaTextbook, starRaw, hne]
     · simp [nfaTextbook, starRaw]
+
+/-! ## union -/
+
+/-- **C08 (union, `|`).**  `A.union(B)` never fails, returns a valid NFA, and its language is
+`L(A) ∪ L(B)` — for operands with different state-name types, overlapping names, different
+alphabets, ε-moves, junk rows. -/
+theorem C08_union (A : AV.NFA σ₁ α) (B : AV.NFA σ₂ α) (hA : A.Valid) (hB : B.Valid) :
+    ∃ R, NFA.union A B = .ok R ∧ R.Valid ∧ Lang R = Lang A + Lang B := by
+  have hval := unionRaw_valid A B hA hB
+  refine ⟨unionRaw A B, ?_, hval, ?_⟩
+  · rw [union_eq A B hA.wf hB.wf, create_eq_ok _ hval.wf]
+  · refine accepts_union (nfaTextbook (unionRaw A B)) (nfaTextbook A) (nfaTextbook B)
+      {q | q ∈ A.states} {q | q ∈ B.states} (uφa A) (uφb A B) 0 A.init B.init
+      (closed_states A hA.wf) (closed_states B hB.wf) hA.wf.initOk hB.wf.initOk rfl rfl rfl
+      ?_ ?_ ?_ ?_ ?_ ?_ ?_
+    · ext p
+      simp [nfaTextbook, unionRaw_targets_zero]
+    · intro a
+      ext p
+      simp [nfaTextbook, unionRaw_targets_zero]
+    · intro q hq a
+      ext p
+      simp only [nfaTextbook, Set.mem_ofPred_eq, Set.mem_image]
+      rw [unionRaw_targets_a A B hA hq a p]
+      constructor
+      · rintro ⟨t, ht, rfl⟩; exact ⟨t, ht, rfl⟩
+      · rintro ⟨t, ht, rfl⟩; exact ⟨t, ht, rfl⟩
+    · intro q hq a
+      ext p
+      simp only [nfaTextbook, Set.mem_ofPred_eq, Set.mem_image]
+      rw [unionRaw_targets_b A B hB hq a p]
+      constructor
+      · rintro ⟨t, ht, rfl⟩; exact ⟨t, ht, rfl⟩
+      · rintro ⟨t, ht, rfl⟩; exact ⟨t, ht, rfl⟩
+    · intro q hq
+      exact unionRaw_final_a A B hA.wf hq
+    · intro q hq
+      exact unionRaw_final_b A B hA.wf hB.wf hq
+    · intro h
+      rcases (mem_unionRaw_finals A B 0).mp h with ⟨q, _, e⟩ | ⟨q, _, e⟩
+      · exact uφa_ne_zero A q e.symm
+      · exact uφb_ne_zero A B q e.symm
+
+/-- The operator `A | B` is `union`. -/
+theorem C08_or (A : AV.NFA σ₁ α) (B : AV.NFA σ₂ α) (hA : A.Valid) (hB : B.Valid) :
+    ∃ R, NFA.orOp A B = .ok R ∧ R.Valid ∧ Lang R = Lang A + Lang B := C08_union A B hA hB
 
 /-! ## reverse -/
 
